@@ -94,9 +94,9 @@ return {
 `
 
 type env struct {
-	L                                                      *lua.LState
-	insert, remove, concat, maxn, getn, unpack, sortf      lua.LValue
-	appendd, popd, set, lenf                               lua.LValue
+	L                                                 *lua.LState
+	insert, remove, concat, maxn, getn, unpack, sortf lua.LValue
+	appendd, popd, set, lenf                          lua.LValue
 }
 
 func newEnv() *env {
